@@ -1,4 +1,4 @@
-"""Re-run the stored seeded changes: python harness/selftest.py [Cnn ...] [--tier quick]
+"""Re-run the stored seeded changes: python harness/selftest.py [Cnn | Cnn-V ...] [--tier quick]
 
 For every /verif/seeded/<Cnn>-<V>/patch.diff (optionally restricted to the given properties) a scratch worktree of /repo's HEAD
 is created under /tmp, the patch is applied, the property's check is run against it (KLVERIF_REPO, evidence redirected to a scratch
@@ -27,7 +27,7 @@ def main():
     for d in sorted(glob.glob(os.path.join(VERIF, "seeded", "C*-*"))):
         name = os.path.basename(d)
         prop = name.split("-")[0]
-        if args and prop not in args:
+        if args and prop not in args and name not in args:
             continue
         with open(os.path.join(d, "meta.json")) as f:
             meta = json.load(f)
